@@ -145,6 +145,112 @@ def same_value(a, b):
 
 
 _HELPER_CACHE = {}
+_OKFACTS = {}
+
+
+def _params_only(e):
+    """expression built from parameters, constants, casts and remaining()/len() of parameters only"""
+    if not isinstance(e, tuple) or not e:
+        return True
+    k = e[0]
+    if k in ('arg', 'const'):
+        return True
+    if k in ('ref', 'deref'):
+        return _params_only(e[1])
+    if k == 'cast':
+        return _params_only(e[3])
+    if k == 'field':
+        return _params_only(e[1])
+    if k == 'call':
+        return re.search(r'(::remaining|::len)$', e[1]) is not None and all(_params_only(a) for a in e[2])
+    if k == 'bin':
+        return _params_only(e[2]) and _params_only(e[3])
+    return False
+
+
+def helper_ok_facts(prog, crate, callee):
+    """comparisons over its own parameters that hold whenever a local helper returns Ok / Some (a validating helper such
+    as `ensure_len_remaining(buf, len)?`): [(op, a, b)] with ('arg', k, _) leaves"""
+    hid = crate + '::' + callee
+    if hid in _OKFACTS:
+        return _OKFACTS[hid]
+    _OKFACTS[hid] = []
+    h = prog.bodies.get(hid)
+    if h is None or h.kind not in ('Fn', 'AssocFn'):
+        return []
+    exits = []
+    for bi, bb in enumerate(h.bbs):
+        if bb['cleanup']:
+            continue
+        for st in bb['st']:
+            p, r = st.get('p', {}), st.get('r', {})
+            if p.get('l') != 0 or p.get('p'):
+                continue
+            if r.get('k') == 'agg' and r['kind'].endswith('Result::Err'):
+                continue
+            if r.get('k') == 'use':
+                v = h.expr_op(r['o'])
+                if v[0] == 'try' and v[1][0] == 'agg' and v[1][1].endswith('Result::Err'):
+                    continue
+            exits.append(bi)
+        t = bb['t']
+        if t['k'] == 'call' and t['dest']['l'] == 0 and not t['dest']['p']:
+            f = t['f'].get('c', {}).get('fn', {})
+            if f.get('name') != 'from_residual':
+                return []
+    if not exits:
+        return []
+    common = None
+    for e in exits:
+        fs = set()
+        for op, a, b, sbb, tb in h.comparisons_at(e):
+            if b is None or not (_params_only(a) and _params_only(b)):
+                continue
+            # nothing may consume the buffer between the comparison and the return
+            recvs = [x[2][0] for x in list(subexprs(a)) + list(subexprs(b)) if x and x[0] == 'call' and x[2]]
+            if any(mutated_between(h, tb, e, r) for r in recvs):
+                continue
+            fs.add((op, _nocallsite(a), _nocallsite(b)))
+        common = fs if common is None else (common & fs)
+    _OKFACTS[hid] = sorted(common or [])
+    return _OKFACTS[hid]
+
+
+def _nocallsite(e):
+    """call-site ids erased, parameter positions kept"""
+    if not isinstance(e, tuple) or not e:
+        return e
+    if e[0] == 'call':
+        return ('call', e[1], tuple(_nocallsite(a) for a in e[2]))
+    return tuple(_nocallsite(x) for x in e)
+
+
+def _subst_args(e, args):
+    if not isinstance(e, tuple) or not e:
+        return e
+    if e[0] == 'arg':
+        return args[e[1] - 1] if 0 < e[1] <= len(args) else e
+    return tuple(_subst_args(x, args) if isinstance(x, tuple) else x for x in e)
+
+
+def facts_at(body, bb):
+    """comparison facts at a block: the dominating comparisons of the body itself plus what validating local helpers
+    guarantee on the Continue edge of `helper(..)?`"""
+    out = list(body.comparisons_at(bb))
+    for cond, val, sbb, tb in body.edge_guards(bb):
+        if val != 0 or cond[0] != 'discr':
+            continue
+        c = cond[1]
+        if c[0] != 'call' or not c[1].endswith('::branch') or not c[2]:
+            continue
+        h = strip_refs(c[2][0])
+        if h[0] != 'call' or len(h) < 4:
+            continue
+        for op, a, b in helper_ok_facts(body.prog, body.crate, h[1]):
+            out.append((op, _subst_args(a, h[2]), _subst_args(b, h[2]), sbb, tb))
+    return out
+
+
 
 
 def checked_len_helper(prog, crate, callee):
@@ -217,7 +323,7 @@ def guard_for_len(body, site_bb, n_expr, recv_expr):
             start = succ[0] if succ else site_bb
             if nb == site_bb or not mutated_between(body, start, site_bb, recv_expr):
                 return ('Eq', n_expr, n_expr, nb)
-    for op, a, b, sbb, tb in body.comparisons_at(site_bb):
+    for op, a, b, sbb, tb in facts_at(body, site_bb):
         if b is None:
             continue
         if n_expr == ('const', 1) and ((op == 'Ne' and is_len_of(a, recv_expr) and b == ('const', 0)) or (op == 'Gt' and is_len_of(a, recv_expr) and b[0] == 'const' and b[1] >= 0)):
@@ -374,7 +480,7 @@ def discharge(site):
                     site.status = 'guarded'
                     site.reason = 'array of %s bytes under %s %s %s' % (dst[2], show(g[1]), g[0], show(g[2]))
                     return True
-            for op, a, b, sbb, tb in body.comparisons_at(site.bb):
+            for op, a, b, sbb, tb in facts_at(body, site.bb):
                 if b is None:
                     continue
                 la, lb = a, b
@@ -408,7 +514,7 @@ def discharge(site):
                 site.reason = 'size is the length of data already held: %s' % show(n)
                 return True
             # size bounded by remaining input through a dominating comparison
-            for op, a, b, sbb, tb in body.comparisons_at(site.bb):
+            for op, a, b, sbb, tb in facts_at(body, site.bb):
                 if b is None:
                     continue
                 if op in ('Le', 'Lt') and _is_any_len(b) and value_le(n, a):
@@ -425,7 +531,7 @@ def discharge(site):
             src = _signed_wire_source(n)
             if src is not None:
                 nonneg = False
-                for op, a, b, sbb, tb in body.comparisons_at(site.bb):
+                for op, a, b, sbb, tb in facts_at(body, site.bb):
                     if b is None:
                         continue
                     if nosite(a) == nosite(src) and b[0] == 'const' and ((op == 'Ge' and b[1] >= 0) or (op == 'Gt' and b[1] >= -1)):
@@ -532,7 +638,7 @@ def auto_discharge_assert(site):
             if ra and rb:
                 return 'A3: usize length arithmetic, operands bounded (%s; %s)' % (ra, rb)
         if op == 'Sub':
-            for cop, ca, cb, sbb, tb in body.comparisons_at(site.bb):
+            for cop, ca, cb, sbb, tb in facts_at(body, site.bb):
                 if cb is None:
                     continue
                 if ca[0] == 'cast' and ca[1] == 'IntToInt' and ca[2] in ('u64', 'usize') and nosite(ca[3]) == nosite(a):
@@ -566,7 +672,7 @@ def auto_discharge_assert(site):
         if l3[0] == 'un' and l3[1] == 'PtrMetadata':
             sl = nosite(strip_refs(l3[2]))
             nonempty = False
-            for cop, ca, cb, sbb, tb in body.comparisons_at(site.bb):
+            for cop, ca, cb, sbb, tb in facts_at(body, site.bb):
                 if cb is None:
                     continue
                 cas = strip_casts(ca)
@@ -616,7 +722,7 @@ def bounded(body, bb, e, op='Add'):
     if not wire_derived(e):
         return 'not read off the wire'
     # wire-derived: needs a dominating comparison against the remaining input
-    for cop, ca, cb, sbb, tb in body.comparisons_at(bb):
+    for cop, ca, cb, sbb, tb in facts_at(body, bb):
         if cb is None:
             continue
         if cop in ('Ge', 'Gt') and _is_any_len(ca) and value_le(e, cb):
